@@ -164,11 +164,13 @@ def run(ctx):
             w = world(c, cfg, 'soft', out='http', headers=True)
             v = S.to_instance(w.gen, t, c['rvals'][0])
             w.holder[0] = v
-            w.holder[1] = [w.hcls(**{'X-Count': 5, 'X-Tag': 'abc'})]
+            import datetime, pytz
+            # (an instant given in a zone east of Greenwich: HTTP dates are always GMT)
+            w.holder[1] = [w.hcls(**{'X-Count': 5, 'X-Tag': 'abc', 'Expires': datetime.datetime(2013, 1, 1, 1, 30, 0, tzinfo=pytz.FixedOffset(120))})]
             res = w.send(c, F.request_pairs(c, cfg))
             body = res['body']
             text = base64.b64encode(body).decode() if t['p'] == 'ByteArray' else body.decode('utf8', 'replace')
-            obs = {'status': res['status'], 'body': text, 'headers': [[k, str(x)] for k, x in res['headers']], 'want_headers': [['X-Count', '5'], ['X-Tag', 'abc']]}
+            obs = {'status': res['status'], 'body': text, 'headers': [[k, str(x)] for k, x in res['headers']], 'want_headers': [['X-Count', '5'], ['X-Tag', 'abc'], ['Expires', 'Mon, 31 Dec 2012 23:30:00 GMT']]}
             info = {'status': res['status'], 'body': text[:100], 'headers': obs['headers'], 'escape': res['escape']}
         except Exception as e:
             obs = {'status': -1, 'body': '?driver', 'headers': [], 'want_headers': []}
